@@ -55,7 +55,7 @@ def shards(tier):
 
 def floors(tier):
     f = {"cases": 15000, "cases_with_errors": 4000, "arrangements": 3000, "chains": 300, "inner_store_refs": 100,
-         "siblings_next_to_ref": 300, "hostile_name_resolutions": 2000, "recursive_cases": 1000,
+         "siblings_next_to_ref": 300, "hostile_name_resolutions": 2000, "recursive_cases": 1000, "recursive_with_asserting_siblings": 300,
          "recursion_depth3plus": 200, "model_crosschecks": 2000, "max_scope_depth": 3, "transform_selfcheck_ok": 3000, "foreign_id_keywords_on_path": 500, "relative_id_in_store_doc": 200, "reused_after_validate": 5000,
          "uri_calibration": 60}
     for m in ("noid", "rootid", "rootid#", "nested"):
@@ -236,7 +236,14 @@ def recursive_part(ctx, rng, n):
                 store = {}
             else:
                 insts = [R.recursive_instance(rng, lambda: ig.any(1), rng.choice([2, 3, 4])) for _ in range(3)]
+            sib = name != "metaschema" and rng.random() < 0.5
+            if sib:
+                # asserting keywords next to every reference (incl. the empty reference): ignored, as the drafts say
+                S = R.with_ref_siblings(rng, d, S)
+                store = {u: R.with_ref_siblings(rng, d, doc) for u, doc in store.items()}
             for inst in insts:
+                if sib:
+                    ctx.count("recursive_with_asserting_siblings")
                 depth = R.depth_of(inst)
                 docs = dict(store)
                 if name == "metaschema":
